@@ -122,6 +122,14 @@ def fixed_case(fb):
     for m in ms: m["vals"] = [rand_val(r, t) for t in m["args"]]
     return {"methods": ms, "decl_order": decl, "fallback": fb, "ghosts": ["bcd", "da", "ba", "transfe", "rans", "c", "zz", "abc"]}
 
+def big_case(k=70):
+    """k methods with distinct 60-byte names: the pool offset of the last arms exceeds the 12-bit immediate"""
+    import random
+    r = random.Random(1)
+    decl = sorted({"m" + "".join(r.choice("abcdefghij") for _ in range(59)) for _ in range(k)})
+    ms = [{"name": n, "args": [], "vals": []} for n in compiler_order(decl)]
+    return {"methods": ms, "decl_order": decl, "fallback": False, "ghosts": ["zz"], "big": True}
+
 FB_MARK, FB_RET = 999999, 424242
 
 def ret_type(m):
@@ -189,14 +197,14 @@ def run(ctx):
         ctx.violation("harness-build", {"log": bout[-4000:]}, "harness c11 does not build against /repo", no_input=True)
         return
     npk, maxm = (6, 8) if ctx.quick else (96, 28)
-    cases = [fixed_case(True), fixed_case(False)]
+    cases = [fixed_case(True), fixed_case(False), big_case()]
     while len(cases) < npk:
         cases.append(gen_case(ctx.rng, maxm))
     base = os.path.join(ctx.work, "pkgs")
     dirs = [sway.write_pkg(base, "c11_%d" % i, {"main.sw": contract_src(c)}, entry="main.sw") for i, c in enumerate(cases)]
 
     def one(i):
-        rc, o = rust.run(binp, ["--ir", dirs[i]], timeout=3000)
+        rc, o = rust.run(binp, (["--no-run"] if cases[i].get("big") else ["--ir"]) + [dirs[i]], timeout=3000)
         res = None
         for line in o.split("\n"):
             if line.startswith('{"'):
@@ -216,6 +224,20 @@ def run(ctx):
         if r.get("status") == "harness_error":
             ctx.violation("harness-run", {"pkg": dirs[i], "out": r.get("error")}, "harness c11 failed to run", no_input=True)
             return
+        if c.get("big"):
+            try:
+                lim = coq.run_cases(ctx, "c11lim", "From SwayV Require Import Base.Util C11.Model C11.Spec C11.Judge.",
+                                    ["Eval vm_compute in (judge_limit [%s])." % ";".join(nlist(m["name"].encode()) for m in c["methods"])])[0][0][0]
+            except RuntimeError as e:
+                ctx.violation("model-eval", {"log": str(e)[-2000:]}, "C11 judge_limit could not be evaluated", no_input=True); continue
+            if lim == 6 and r.get("status") == "build_error":
+                ctx.violation("method-name-pool-over-4095", dict(rep, source=rep["source"][:3000] + "..."),
+                              "a contract whose pooled method names push an arm offset past 4095 (12-bit immediate of `addi r name i<offset>`) is rejected by the compiler")
+            elif lim == 6 and r.get("status") == "ok":
+                ctx.log("note: the 4095-byte method-name pool limit no longer applies; update entry_ok and KNOWN_FINDINGS")
+            else:
+                ctx.violation(key, dict(rep, correspondence="C11.entry_ok"), "model and compiler disagree on the corpus ABI with a large name pool (model code %s, status %s)" % (lim, r.get("status")), no_input=True)
+            continue
         if r.get("status") == "panic":
             ctx.violation(key, rep, "compiler panic on a generated contract ABI: %s" % rep["error"][:200]); continue
         if r.get("status") != "ok":
